@@ -17,6 +17,10 @@ impl<'t> Interp<'t> {
     /// After `Bump::reset` (`keeps_one`) or `Bump::reset_to_start`.
     pub fn after_reset(&mut self, arena: &dyn Arena, keeps_one: bool) {
         self.stats.steps += 1;
+        if self.abort_run {
+            self.kill_all_blocks();
+            return;
+        }
         let before = self.last.clone();
         self.kill_all_blocks();
         let snap = arena.snap();
